@@ -129,6 +129,17 @@ CHECKS = {
         design_ref="6.9",
         note=LEVEL_NOTE_COMMON + " Axioms: Coq.Reals (ClassicalDedekindReals.sig_forall_dec, sig_not_dec, FunctionalExtensionality.functional_extensionality_dep, Classical_Prop.classic). Float32 rounding is measured, not proved; strict order is claimed only on the non-saturated domain.",
     ),
+    "C07": dict(
+        technique="Coq proof (count-based metric family: symmetry, identity, division safety, ranges for all count vectors; counting loop laws) + exhaustive comparison of the compiled binary metrics with the extracted exact fractions on all 0/1 vector pairs of small dimension + float64 reference comparison, symmetry, NaN and identity checks of every named dense metric on structured float32 vectors",
+        text=("Theorems in coq/props/C07.v, for all admissible counts: every count-based metric (hamming, matching, jaccard, dice, kulsinski, "
+              "rogerstanimoto, sokalmichener, russellrao, sokalsneath, yule) is symmetric, assigns identical inputs exactly 0, never divides by "
+              "zero on the branch that divides, and stays in its documented range; the counting loop swaps tf/ft under argument swap. The "
+              "compiled kernels equal the extracted model's exact fractions on ALL pairs of 0/1 vectors up to dimension 5 (6 in thorough). "
+              "All other named dense metrics are compared with independent float64 definitions on structured vectors (zero, identical, "
+              "multiples, extreme magnitudes, near-identical, ~1e5 values) with all metric arguments, and checked for symmetry, NaN and d(x,x)=0."),
+        design_ref="6.7",
+        note=LEVEL_NOTE_COMMON + " Float32 rounding of geometric/distribution kernels is not proved (tolerance comparison); spearmanr, circular_kantorovich, tsss, true_angular are checked for laws only; transport metrics are C10.",
+    ),
 }
 
 REASON_PENDING = "check not built yet in this round (design in DESIGN.md section 6; no claim is made until the check exists)"
